@@ -22,6 +22,10 @@ def run(tier, seed):
         cc.replay_forged(ctx, e.exports["FORGED"])
         e = cc.export(ctx, "export2", cc.consts(MaxToks=2, KeyAlgs="<- AlgsEd", FPayloads="<- FP1", SampleN=8), inv, ("FORGED",))
         cc.replay_forged(ctx, e.exports["FORGED"])
+        # the deprecated entry points and the delimiter-less v0 layout: a payload tail presented as an external signature
+        modes = cc.consts(PayloadVersion="<- PVSplit", FPayloads="<- FPSplit", KeyAlgs="<- AlgsEd", Mutations="<- ModeMutations", SampleN=4)
+        e = cc.export(ctx, "modes", modes, inv + ["ModesCoincide", "ModesAgreeOnStd", "SoundInEveryMode"], ("FORGED",))
+        cc.replay_forged(ctx, e.exports["FORGED"])
     else:
         cc.design(ctx, "design1", cc.consts(RootAlgs="<- AlgsBoth", ExtAlgs="<- AlgsBoth"), inv, timeout=7200)
         cc.design(ctx, "design2", cc.consts(MaxOps=4, MaxToks=2, KeyAlgs="<- AlgsEd", FPayloads="<- FP1"), inv, timeout=7200)
@@ -32,6 +36,9 @@ def run(tier, seed):
         cc.replay_forged(ctx, e.exports["FORGED"])
         e = cc.export(ctx, "export3", cc.consts(MaxOps=4, MaxBlocks=4, FPayloads="<- FP1", SampleN=32), inv, ("FORGED",), timeout=7200)
         cc.replay_forged(ctx, e.exports["FORGED"])
+        modes = cc.consts(PayloadVersion="<- PVSplit", FPayloads="<- FPSplit", KeyAlgs="<- AlgsEd", Mutations="<- ModeMutations", MaxOps=4, MaxBlocks=4, SampleN=4)
+        e = cc.export(ctx, "modes", modes, inv + ["ModesCoincide", "ModesAgreeOnStd", "SoundInEveryMode"], ("FORGED",), timeout=7200)
+        cc.replay_forged(ctx, e.exports["FORGED"])
     return ctx.finish(
         rule="TLC enumerates every honest API history within the bounds and every single adversary action "
              "(field substitution from the pool of seen values, reorder/drop/duplicate, truncate with every proof, "
@@ -39,7 +46,9 @@ def run(tier, seed):
              "proof swap, root key id hint flipped; the verifier is a ROOT KEY PROVIDER id -> key-or-none, every provider over the known roots for the unmodified / "
              "hint-flipped token); invariant Accepted => Authentic (modulo the named weaknesses). Each exported "
              "state is concretised to token bytes and offered to SerializedBiscuit::from_slice, Biscuit::from, "
-             "Biscuit::from_base64 and UnverifiedBiscuit::from+verify; accept/reject must equal the spec's Verify. "
+             "Biscuit::from_base64 and UnverifiedBiscuit::from+verify, and to the deprecated entry points Biscuit::unsafe_deprecated_deserialize and "
+             "UnverifiedBiscuit::unsafe_deprecated_deserialize+verify (modes legacy / mixed of Chain.tla; the v0 layout is modelled as the flat chunk sequence it signs, "
+             "mutation Resplit presents a payload tail as an external signature); accept/reject must equal the spec's VerifyMode for the entry point. "
              "distinct_nontrivial counts distinct (mutation kind, block position, spec verdict, authentic) classes replayed.",
         exhaustive=False)
 
